@@ -738,6 +738,465 @@ theorem C13_never_arrives_limit (env : Env) (d0 : DestSt) (h : Hdr) (rc : Remote
     simp
 
 
+
+section AnyPattern
+open Cfdp.C06 Cfdp.C03
+
+/-! ## Any arrival pattern in unacknowledged mode: the EOF overtakes any of the File Data PDUs -/
+
+/-- length and content of the file after a tile was written (no tracker involved) -/
+theorem file_after_tile_u {F c : List UInt8} {seg a b : Nat} {h : List (Nat × Nat)} (hs : 0 < seg)
+    (hT : Tile seg F.length a b) (hcov : ∀ x, covered h x → c[x]? = F[x]?) (hh : ∀ q ∈ h, q.2 ≤ F.length) :
+    (Fs.writeBytes c (tileData F a b) a).length = max c.length b ∧
+    ∀ x, covered (h ++ [(a, b)]) x → (Fs.writeBytes c (tileData F a b) a)[x]? = F[x]? := by
+  have hab := hT.lt hs
+  have hbs := hT.le_size
+  have hdl := tileData_length hT
+  have hne : tileData F a b ≠ [] := by
+    intro hc; rw [hc] at hdl; simp at hdl; omega
+  constructor
+  · have hemp : (tileData F a b).isEmpty = false := by cases h0 : tileData F a b <;> simp_all
+    simp only [Fs.writeBytes, hemp]
+    by_cases hgt : a > c.length
+    · simp [hgt, hdl]; omega
+    · simp [hgt, hdl]; omega
+  · intro x hx
+    rw [covered_append] at hx
+    rw [Fs.C17.write_get c _ a x hne, hdl]
+    by_cases hin : a ≤ x ∧ x < b
+    · have h1 : ¬ x < a := by omega
+      have h2 : x < a + (b - a) := by omega
+      simp only [h1, h2, if_false, if_true]
+      rw [tileData_get hT (x - a) (by omega)]
+      congr 1; omega
+    · have hc : covered h x := hx.resolve_right hin
+      have hcx := hcov x hc
+      obtain ⟨q, hq, q1, q2⟩ := hc
+      have hxF : x < F.length := by have := hh q hq; omega
+      have hxl : x < c.length := by
+        rw [List.getElem?_eq_getElem hxF] at hcx
+        by_contra hn
+        rw [List.getElem?_eq_none (by omega)] at hcx
+        cases hcx
+      by_cases h1 : x < a
+      · simp only [h1, if_true, Fs.C17.padded_get, hxl]
+        exact hcx
+      · have h2 : ¬ x < a + (b - a) := by omega
+        simp only [h1, h2, if_false, Fs.C17.padded_get, hxl, if_true]
+        exact hcx
+
+/-- receiver in the middle of an unacknowledged transfer after the File Data PDUs of the history `h` -/
+structure RecvU (d : DestSt) (dst : String) (F c : List UInt8) (h : List (Nat × Nat)) (rc : RemoteCfg)
+    (t : Tid) (cks : Nat) (cl : Bool) : Prop where
+  hbusy : d.state = .busy
+  hstep : d.step = .RECEIVING_FILE_DATA
+  hready : d.numReady = 0
+  hqueue : d.queue = []
+  hmode : d.p.conf.mode = .unack
+  hname : d.p.fileName = dst
+  hfile : d.fs.get dst = some (.file c)
+  hlen : c.length = d.p.progress
+  hle : c.length ≤ F.length
+  hcov : ∀ x, covered h x → c[x]? = F[x]?
+  hin : ∀ q ∈ h, q.2 ≤ F.length
+  hnoEof : d.p.fileSizeEof = none
+  hrc : d.p.remoteCfg = some rc
+  htid : d.p.tid = some t
+  hrej : d.rejects = []
+  hcks : d.p.cksType = cks
+  hclosure : d.p.closure = cl
+  hcancel : d.p.canceled = false
+  hmo : d.p.metadataOnly = false
+  hflts : d.flts = []
+  hfin : d.p.fin = ⟨ccNoError, dcIncomplete, fsRetained, none⟩
+
+theorem RecvU.ofReceiving {d : DestSt} {dst : String} {F : List UInt8} {rc : RemoteCfg} {t : Tid} {cks : Nat}
+    {cl : Bool} (hr : Receiving d dst [] rc t cks cl) : RecvU d dst F [] [] rc t cks cl :=
+  { hbusy := hr.hbusy, hstep := hr.hstep, hready := hr.hready, hqueue := hr.hqueue, hmode := hr.hmode,
+    hname := hr.hname, hfile := hr.hfile, hlen := by rw [hr.hprog], hle := by simp,
+    hcov := fun x hx => by obtain ⟨q, hq, _⟩ := hx; simp at hq,
+    hin := fun q hq => by simp at hq,
+    hnoEof := hr.hnoEof, hrc := hr.hrc, htid := hr.htid, hrej := hr.hrej, hcks := hr.hcks, hclosure := hr.hclosure,
+    hcancel := hr.hcancel, hmo := hr.hmo, hflts := hr.hflts, hfin := hr.hfin }
+
+/-- state after a tile (unacknowledged mode, any position) -/
+def afterTileU (d : DestSt) (dst : String) (c data : List UInt8) (a b : Nat) (env : Env) (t : Tid) : DestSt :=
+  { d with fs := d.fs.set dst (.file (Fs.writeBytes c data a)),
+           p := { d.p with progress := max b d.p.progress },
+           inds := d.inds ++ (if env.cfg.indSegRecv then [.segRecv (some t) a (b - a)] else []) }
+
+/-- **One File Data PDU, any position (unacknowledged mode)** -/
+theorem C13_tile_any (env : Env) (d : DestSt) (dst : String) (F c : List UInt8) (seg : Nat)
+    (h : List (Nat × Nat)) (rc : RemoteCfg) (t : Tid) (cks : Nat) (cl : Bool) (hd : Hdr) (a b : Nat)
+    (hs : 0 < seg) (hr : RecvU d dst F c h rc t cks cl) (ha : Admissible env rc hd)
+    (hT : Tile seg F.length a b) :
+    stateMachine env (some (.fd hd a (tileData F a b))) d =
+      .ok () (afterTileU d dst c (tileData F a b) a b env t) ∧
+    RecvU (afterTileU d dst c (tileData F a b) a b env t) dst F (Fs.writeBytes c (tileData F a b) a)
+      (h ++ [(a, b)]) rc t cks cl := by
+  have hab := hT.lt hs
+  have hbs := hT.le_size
+  have hdl := tileData_length hT
+  have hsum : a + (b - a) = b := by omega
+  obtain ⟨hflen, hfcov⟩ := file_after_tile_u hs hT hr.hcov hr.hin
+  have hfin' : d.p.fin.fstat = fsRetained := by rw [hr.hfin]
+  constructor
+  · cases hi : env.cfg.indSegRecv <;>
+    msimp [stateMachine, stateMachineWith, checkInsertedPacket, Pdu.hdr, ha.hdir, ha.hdst, ha.hsrc, Pdu.kind,
+      Route.getPacketDestination, hr.hbusy, transmissionMode, hr.hmode, nonIdleFsm,
+      fsmAdvancementAfterPacketsWereSent, hr.hqueue, hr.hstep, fsmFromReceiving, handleFdOrEofPdu, handleFdPdu,
+      fdIndication, hi, getP, emitInd, hr.htid, fdLostSegments, fdWrite, vfsWriteData, hr.hrej, hr.hname,
+      Fs.writeData, hr.hfile, hdl, hsum, fdAfterWrite, sizeErrOf, modP, hr.hnoEof, fsmFromWaitingForMetadata,
+      fsmFromCheckLimit, fsmFromWaitingForMissingData, fsmFromTransferCompletion, fsmFromSendingFinishedPdu,
+      fsmFromWaitingForFinishedAck, afterTileU, hr.hfin]
+  · exact
+      { hbusy := hr.hbusy, hstep := hr.hstep, hready := hr.hready, hqueue := hr.hqueue, hmode := hr.hmode,
+        hname := hr.hname, hfile := by simp [afterTileU, Fs.C17.get_set_same],
+        hlen := by
+          show (Fs.writeBytes c (tileData F a b) a).length = max b d.p.progress
+          rw [hflen, hr.hlen]; omega,
+        hle := by rw [hflen]; have := hr.hle; omega,
+        hcov := hfcov,
+        hin := by
+          intro q hq; simp at hq
+          rcases hq with hq | hq
+          · exact hr.hin q hq
+          · subst hq; exact hbs,
+        hnoEof := hr.hnoEof, hrc := hr.hrc, htid := hr.htid, hrej := hr.hrej, hcks := hr.hcks,
+        hclosure := hr.hclosure, hcancel := hr.hcancel, hmo := hr.hmo, hflts := hr.hflts, hfin := hr.hfin }
+
+/-- the tiles of a history handed to the receiver (unacknowledged mode), one call each -/
+def feedU (env : Env) (hd : Hdr) (F : List UInt8) : List (Nat × Nat) → DestSt → Option DestSt
+  | [], d => some d
+  | q :: rest, d =>
+    match stateMachine env (some (.fd hd q.1 (tileData F q.1 q.2))) d with
+    | .ok _ d' => feedU env hd F rest d'
+    | .error _ _ => none
+
+/-- the file content after the tiles of a history were written in order -/
+def contentOf (F : List UInt8) (h : List (Nat × Nat)) (c : List UInt8) : List UInt8 :=
+  h.foldl (fun c q => Fs.writeBytes c (tileData F q.1 q.2) q.1) c
+
+theorem C13_receiver_any_history (env : Env) (hd : Hdr) (dst : String) (F : List UInt8) (seg : Nat)
+    (rc : RemoteCfg) (t : Tid) (cks : Nat) (cl : Bool) (hs : 0 < seg) (ha : Admissible env rc hd) :
+    ∀ (h2 : List (Nat × Nat)) (d : DestSt) (c : List UInt8) (h : List (Nat × Nat)),
+      (∀ q ∈ h2, Tile seg F.length q.1 q.2) → RecvU d dst F c h rc t cks cl →
+      ∃ d', feedU env hd F h2 d = some d' ∧ RecvU d' dst F (contentOf F h2 c) (h ++ h2) rc t cks cl ∧
+        (∀ q, q ≠ dst → d'.fs.get q = d.fs.get q) ∧
+        d'.inds.filter isFinished = d.inds.filter isFinished ∧ d'.p.conf = d.p.conf ∧ d'.faults = d.faults := by
+  intro h2
+  induction h2 with
+  | nil => intro d c h _ hr; exact ⟨d, rfl, by simpa [contentOf] using hr, fun _ _ => rfl, rfl, rfl, rfl⟩
+  | cons q h2 ih =>
+    intro d c h hT hr
+    obtain ⟨hcall, hr'⟩ := C13_tile_any env d dst F c seg h rc t cks cl hd q.1 q.2 hs hr ha (hT q List.mem_cons_self)
+    obtain ⟨d', hf, hR, hother, hfin, hcf, hft⟩ := ih _ _ _ (fun r hr => hT r (List.mem_cons_of_mem _ hr)) hr'
+    refine ⟨d', ?_, ?_, ?_, ?_, ?_, ?_⟩
+    · simp only [feedU, hcall]; exact hf
+    · simpa [List.append_assoc, contentOf] using hR
+    · intro p hp
+      rw [hother p hp]
+      simp [afterTileU, Fs.C17.get_set_other _ _ _ _ hp]
+    · rw [hfin]
+      simp only [afterTileU, List.filter_append]
+      split <;> simp [isFinished]
+    · rw [hcf]; rfl
+    · rw [hft]; rfl
+
+/-- receiver waiting in the check-limit procedure after any history: the EOF (size `|F|`) received, stored
+content `c` (possibly shorter than the file), check timer `tm`, `n` expiries so far -/
+structure CheckWaitG (d : DestSt) (dst : String) (F c crc : List UInt8) (h : List (Nat × Nat)) (rc : RemoteCfg)
+    (t : Tid) (cks : Nat) (tm : Timer) (n : Nat) (cl : Bool) : Prop where
+  hbusy : d.state = .busy
+  hstep : d.step = .RECV_FILE_DATA_WITH_CHECK_LIMIT_HANDLING
+  hready : d.numReady = 0
+  hqueue : d.queue = []
+  hmode : d.p.conf.mode = .unack
+  hname : d.p.fileName = dst
+  hfile : d.fs.get dst = some (.file c)
+  hlen : c.length = d.p.progress
+  hle : c.length ≤ F.length
+  hcov : ∀ x, covered h x → c[x]? = F[x]?
+  hin : ∀ q ∈ h, q.2 ≤ F.length
+  hcrc : d.p.crc32 = crc
+  hfse : d.p.fileSizeEof = some F.length
+  hrc : d.p.remoteCfg = some rc
+  htid : d.p.tid = some t
+  hrej : d.rejects = []
+  hcks : d.p.cksType = cks
+  hclosure : d.p.closure = cl
+  hcancel : d.p.canceled = false
+  hmo : d.p.metadataOnly = false
+  hfin : d.p.fin = ⟨ccNoError, dcIncomplete, fsRetained, none⟩
+  htm : d.p.checkTimer = some tm
+  hcnt : d.p.checkCount = n
+  hfh1 : d.faults.lookup ccChecksumFailure = some fhIgnore
+  hfh2 : d.faults.lookup ccCheckLimit = some fhCancel
+
+/-- **The EOF overtakes file data, any pattern (whole call)**: the stored content does not have the
+EOF's checksum: the transaction is not finished; the check timer starts, the counter is 0, the checksum
+failure is reported once (ignored), nothing is queued. -/
+theorem C13_eof_waits_any (env : Env) (d : DestSt) (dst : String) (F c crc : List UInt8) (h : List (Nat × Nat))
+    (rc : RemoteCfg) (t : Tid) (cks : Nat) (hd : Hdr) (cl : Bool) (hr : RecvU d dst F c h rc t cks cl)
+    (ha : Admissible env rc hd) (hmis : MismatchOf cks c crc) (hchk : env.cfg.chkMs ≠ 0)
+    (hfh1 : d.faults.lookup ccChecksumFailure = some fhIgnore) (hfh2 : d.faults.lookup ccCheckLimit = some fhCancel) :
+    stateMachine env (some (.eof hd ccNoError crc F.length none)) d = .ok () (afterEofWait env d t crc F.length) ∧
+    CheckWaitG (afterEofWait env d t crc F.length) dst F c crc h rc t cks ⟨env.now, env.cfg.chkMs⟩ 0 cl := by
+  obtain ⟨h1, cc, h2, h3⟩ := hmis
+  have hnull : Checksum.CksType.ofNat cks ≠ .null := by
+    intro hh
+    simp [Checksum.CksType.ofNat] at hh
+    split at hh <;> simp_all
+  have hc : Fs.calcChecksum d.fs (Checksum.CksType.ofNat cks) dst d.p.progress 4096 = .ok cc := by
+    rw [← hr.hlen]
+    simp [Fs.calcChecksum, hnull, hr.hfile, h2]
+  have hngt : ¬ d.p.progress > F.length := by rw [← hr.hlen]; have := hr.hle; omega
+  have hpos : 0 < env.cfg.chkMs := by omega
+  constructor
+  · cases hi : env.cfg.indEofRecv <;>
+    msimp [stateMachine, stateMachineWith, checkInsertedPacket, Pdu.hdr, ha.hdir, ha.hdst, ha.hsrc, Pdu.kind,
+      Route.getPacketDestination, hr.hbusy, transmissionMode, hr.hmode, nonIdleFsm,
+      fsmAdvancementAfterPacketsWereSent, hr.hqueue, hr.hstep, fsmFromReceiving, handleFdOrEofPdu, handleEofPdu,
+      modP, hi, getP, hr.htid, emitInd, handleNoErrorEof, hngt, noErrorEofVerify, checksumVerify,
+      hr.hcks, h1, hr.hmo, hr.hname, hc, h3, declareFault, hfh1, fhIgnore, fhCancel, fhAbandon,
+      startCheckLimitHandling, assertThat, hr.hrc,
+      fsmFromWaitingForMetadata, fsmFromCheckLimit, checkLimitHandling, Timer.timedOut, hchk, hpos,
+      fsmFromWaitingForMissingData, fsmFromTransferCompletion,
+      fsmFromSendingFinishedPdu, fsmFromWaitingForFinishedAck,
+      afterEofWait, waitP, hr.hfin, ccNoError, dtEof]
+  · exact
+      { hbusy := hr.hbusy, hstep := rfl, hready := hr.hready, hqueue := hr.hqueue, hmode := hr.hmode,
+        hname := hr.hname, hfile := hr.hfile, hlen := hr.hlen, hle := hr.hle, hcov := hr.hcov, hin := hr.hin,
+        hcrc := rfl, hfse := rfl, hrc := hr.hrc,
+        htid := hr.htid, hrej := hr.hrej, hcks := hr.hcks, hclosure := hr.hclosure, hcancel := hr.hcancel,
+        hmo := hr.hmo, hfin := hr.hfin, htm := rfl, hcnt := rfl, hfh1 := hfh1, hfh2 := hfh2 }
+
+/-- **An expiry below the limit, the content still not matching (whole call, any pattern)** -/
+theorem C13_expiry_retry_any (env : Env) (d : DestSt) (dst : String) (F c crc : List UInt8) (h : List (Nat × Nat))
+    (rc : RemoteCfg) (t : Tid) (cks : Nat) (tm : Timer) (n : Nat) (cl : Bool)
+    (hr : CheckWaitG d dst F c crc h rc t cks tm n cl)
+    (hmis : MismatchOf cks c crc) (hexp : tm.timedOut env.now = true) (hlim : n + 1 < rc.chkLim) :
+    stateMachine env none d = .ok () (afterRetry d env.now tm t) ∧
+    CheckWaitG (afterRetry d env.now tm t) dst F c crc h rc t cks ⟨env.now, tm.timeout⟩ (n + 1) cl := by
+  obtain ⟨cc, hm⟩ := mismatch_of d dst c crc cks hr.hname hr.hfile hr.hlen.symm hr.hcks hr.hcrc hr.hmo hmis
+  have hcall := C13_expiry_retry env d tm rc cc t hr.htm hr.hrc hexp hm hr.htid hr.hbusy hr.hfh1
+    (by rw [hr.hcnt]; exact hlim)
+  constructor
+  · unfold stateMachine
+    generalize (stateMachineWith env none (stateMachineWith env none (throw Err.recursionError))) = rec
+    msimp [stateMachineWith, hr.hbusy, nonIdleFsm, fsmAdvancementAfterPacketsWereSent, hr.hqueue, hr.hstep,
+      fsmFromReceiving, fsmFromWaitingForMetadata, fsmFromCheckLimit, hcall, fsmFromWaitingForMissingData,
+      fsmFromTransferCompletion, fsmFromSendingFinishedPdu, fsmFromWaitingForFinishedAck, afterRetry, retryP]
+  · exact
+      { hbusy := hr.hbusy, hstep := hr.hstep, hready := hr.hready, hqueue := hr.hqueue, hmode := hr.hmode,
+        hname := hr.hname, hfile := hr.hfile, hlen := hr.hlen, hle := hr.hle, hcov := hr.hcov, hin := hr.hin,
+        hcrc := hr.hcrc, hfse := hr.hfse, hrc := hr.hrc,
+        htid := hr.htid, hrej := hr.hrej, hcks := hr.hcks, hclosure := hr.hclosure, hcancel := hr.hcancel,
+        hmo := hr.hmo, hfin := hr.hfin, htm := rfl, hcnt := by simp [afterRetry, retryP, hr.hcnt],
+        hfh1 := hr.hfh1, hfh2 := hr.hfh2 }
+
+/-- **Any number of expiries below the check limit, nothing new arriving (any pattern)** -/
+theorem C13_expiries_below_limit_any (cfg : LocalCfg) (dst : String) (F c crc : List UInt8) (h : List (Nat × Nat))
+    (rc : RemoteCfg) (t : Tid) (cks : Nat) (cl : Bool) (hmis : MismatchOf cks c crc) :
+    ∀ (times : List Nat) (d : DestSt) (tm : Timer) (n : Nat),
+      CheckWaitG d dst F c crc h rc t cks tm n cl → C04.Expiring tm.timeout tm.start times →
+      n + times.length < rc.chkLim →
+      ∃ d', checkRounds cfg times d = some d' ∧
+        CheckWaitG d' dst F c crc h rc t cks ⟨C04.lastOr tm.start times, tm.timeout⟩ (n + times.length) cl ∧
+        d'.fs = d.fs ∧ d'.inds = d.inds ∧ d'.p.conf = d.p.conf ∧
+        d'.flts = d.flts ++ List.replicate times.length ⟨fhIgnore, t, ccChecksumFailure, c.length⟩ := by
+  intro times
+  induction times with
+  | nil =>
+    intro d tm n hr _ _
+    exact ⟨d, rfl, by simpa [C04.lastOr] using hr, rfl, rfl, rfl, by simp⟩
+  | cons x xs ih =>
+    intro d tm n hr hexp hlim
+    simp only [C04.Expiring] at hexp
+    simp only [List.length_cons] at hlim
+    obtain ⟨hcall, hW⟩ := C13_expiry_retry_any ⟨cfg, x⟩ d dst F c crc h rc t cks tm n cl hr hmis
+      (by simp [Timer.timedOut]; exact hexp.1) (by omega)
+    obtain ⟨d', hrest, hW', hfs, hin, hcf, hfl⟩ := ih (afterRetry d x tm t) ⟨x, tm.timeout⟩ (n + 1) hW hexp.2 (by omega)
+    refine ⟨d', ?_, ?_, ?_, ?_, ?_, ?_⟩
+    · simp only [checkRounds, hcall, hrest]
+    · have : n + 1 + xs.length = n + (xs.length + 1) := by omega
+      simpa [C04.lastOr, this] using hW'
+    · rw [hfs]; rfl
+    · rw [hin]; rfl
+    · rw [hcf]; rfl
+    · rw [hfl]
+      simp [afterRetry, hr.hlen, List.replicate_succ]
+
+/-- **A late File Data PDU while the receiver waits (timer running), any tile**: stored; nothing else -/
+theorem C13_late_tile_any (env : Env) (d : DestSt) (dst : String) (F c crc : List UInt8) (seg : Nat)
+    (h : List (Nat × Nat)) (rc : RemoteCfg) (t : Tid) (cks : Nat) (tm : Timer) (n : Nat) (hd : Hdr) (cl : Bool)
+    (a b : Nat) (hs : 0 < seg) (hr : CheckWaitG d dst F c crc h rc t cks tm n cl) (ha : Admissible env rc hd)
+    (hT : Tile seg F.length a b) (hrun : tm.timedOut env.now = false) :
+    stateMachine env (some (.fd hd a (tileData F a b))) d =
+      .ok () (afterTileU d dst c (tileData F a b) a b env t) ∧
+    CheckWaitG (afterTileU d dst c (tileData F a b) a b env t) dst F (Fs.writeBytes c (tileData F a b) a) crc
+      (h ++ [(a, b)]) rc t cks tm n cl := by
+  have hab := hT.lt hs
+  have hbs := hT.le_size
+  have hdl := tileData_length hT
+  have hsum : a + (b - a) = b := by omega
+  have hnsz : ¬ b > F.length := by omega
+  obtain ⟨hflen, hfcov⟩ := file_after_tile_u hs hT hr.hcov hr.hin
+  constructor
+  · unfold stateMachine
+    generalize (stateMachineWith env none (stateMachineWith env none (throw Err.recursionError))) = rec
+    cases hi : env.cfg.indSegRecv <;>
+    msimp [stateMachineWith, checkInsertedPacket, Pdu.hdr, ha.hdir, ha.hdst, ha.hsrc, Pdu.kind,
+      Route.getPacketDestination, hr.hbusy, transmissionMode, hr.hmode, nonIdleFsm,
+      fsmAdvancementAfterPacketsWereSent, hr.hqueue, hr.hstep, fsmFromReceiving, handleFdOrEofPdu, handleFdPdu,
+      fdIndication, hi, getP, emitInd, hr.htid, fdLostSegments, fdWrite, vfsWriteData, hr.hrej, hr.hname,
+      Fs.writeData, hr.hfile, hdl, hsum, fdAfterWrite, sizeErrOf, modP, hr.hfse, hnsz,
+      fsmFromWaitingForMetadata,
+      fsmFromCheckLimit, checkLimitHandling, hr.htm, hr.hrc, hrun, fsmFromWaitingForMissingData,
+      fsmFromTransferCompletion, fsmFromSendingFinishedPdu,
+      fsmFromWaitingForFinishedAck, afterTileU, hr.hfin]
+  · exact
+      { hbusy := hr.hbusy, hstep := hr.hstep, hready := hr.hready, hqueue := hr.hqueue, hmode := hr.hmode,
+        hname := hr.hname, hfile := by simp [afterTileU, Fs.C17.get_set_same],
+        hlen := by
+          show (Fs.writeBytes c (tileData F a b) a).length = max b d.p.progress
+          rw [hflen, hr.hlen]; omega,
+        hle := by rw [hflen]; have := hr.hle; omega,
+        hcov := hfcov,
+        hin := by
+          intro q hq; simp at hq
+          rcases hq with hq | hq
+          · exact hr.hin q hq
+          · subst hq; exact hbs,
+        hcrc := hr.hcrc, hfse := hr.hfse, hrc := hr.hrc,
+        htid := hr.htid, hrej := hr.hrej, hcks := hr.hcks, hclosure := hr.hclosure, hcancel := hr.hcancel,
+        hmo := hr.hmo, hfin := hr.hfin, htm := hr.htm, hcnt := hr.hcnt, hfh1 := hr.hfh1, hfh2 := hr.hfh2 }
+
+/-- once everything was delivered the general waiting state is the one of the single-hole theorems -/
+theorem CheckWaitG.complete {d : DestSt} {dst : String} {F c crc : List UInt8} {h : List (Nat × Nat)}
+    {rc : RemoteCfg} {t : Tid} {cks : Nat} {tm : Timer} {n : Nat} {cl : Bool}
+    (hr : CheckWaitG d dst F c crc h rc t cks tm n cl) (hall : ∀ x, x < F.length → covered h x) :
+    c = F ∧ CheckWait d dst F crc rc t cks tm n cl := by
+  have hc : c = F := file_complete hr.hle hr.hcov hall
+  subst hc
+  exact ⟨rfl,
+    { hbusy := hr.hbusy, hstep := hr.hstep, hready := hr.hready, hqueue := hr.hqueue, hmode := hr.hmode,
+      hname := hr.hname, hfile := hr.hfile, hprog := hr.hlen.symm, hcrc := hr.hcrc, hfse := hr.hfse, hrc := hr.hrc,
+      htid := hr.htid, hrej := hr.hrej, hcks := hr.hcks, hclosure := hr.hclosure, hcancel := hr.hcancel,
+      hmo := hr.hmo, hfin := hr.hfin, htm := hr.htm, hcnt := hr.hcnt, hfh1 := hr.hfh1, hfh2 := hr.hfh2 }⟩
+
+/-- late tiles while the timer runs, any order -/
+theorem C13_late_any_history (env : Env) (hd : Hdr) (dst : String) (F crc : List UInt8) (seg : Nat)
+    (rc : RemoteCfg) (t : Tid) (cks : Nat) (cl : Bool) (tm : Timer) (n : Nat) (hs : 0 < seg)
+    (ha : Admissible env rc hd) (hrun : tm.timedOut env.now = false) :
+    ∀ (h2 : List (Nat × Nat)) (d : DestSt) (c : List UInt8) (h : List (Nat × Nat)),
+      (∀ q ∈ h2, Tile seg F.length q.1 q.2) → CheckWaitG d dst F c crc h rc t cks tm n cl →
+      ∃ d', feedU env hd F h2 d = some d' ∧ CheckWaitG d' dst F (contentOf F h2 c) crc (h ++ h2) rc t cks tm n cl ∧
+        (∀ q, q ≠ dst → d'.fs.get q = d.fs.get q) ∧
+        d'.inds.filter isFinished = d.inds.filter isFinished ∧ d'.p.conf = d.p.conf ∧ d'.flts = d.flts := by
+  intro h2
+  induction h2 with
+  | nil => intro d c h _ hr; exact ⟨d, rfl, by simpa [contentOf] using hr, fun _ _ => rfl, rfl, rfl, rfl⟩
+  | cons q h2 ih =>
+    intro d c h hT hr
+    obtain ⟨hcall, hr'⟩ := C13_late_tile_any env d dst F c crc seg h rc t cks tm n hd cl q.1 q.2 hs hr ha
+      (hT q List.mem_cons_self) hrun
+    obtain ⟨d', hf, hR, hother, hfin, hcf, hfl⟩ := ih _ _ _ (fun r hr => hT r (List.mem_cons_of_mem _ hr)) hr'
+    refine ⟨d', ?_, ?_, ?_, ?_, ?_, ?_⟩
+    · simp only [feedU, hcall]; exact hf
+    · simpa [List.append_assoc, contentOf] using hR
+    · intro p hp
+      rw [hother p hp]
+      simp [afterTileU, Fs.C17.get_set_other _ _ _ _ hp]
+    · rw [hfin]
+      simp only [afterTileU, List.filter_append]
+      split <;> simp [isFinished]
+    · rw [hcf]; rfl
+    · rw [hfl]; rfl
+
+/-- **The EOF overtakes any of the File Data PDUs; they all arrive before the limit: the transfer
+completes (whole run, unacknowledged mode, with or without closure).**  After the Metadata PDU the tiles
+of any history `h1` arrive (any order, any losses, any duplicates), then the EOF: the stored content does
+not have its checksum, so the check-limit procedure starts.  `times` are expiries of the check timer at
+which nothing new has arrived (fewer than the limit): each only counts.  Then the tiles `h2` arrive — any
+order, any of them again — while the timer is running, completing the file.  At the next expiry the
+verification succeeds: the file is byte-identical, the user gets exactly one Transaction-Finished (No
+error, Data complete, File retained), with closure exactly one Finished PDU with those values is queued,
+the handler is idle; no Check limit fault — only the ignored checksum failures of the unsuccessful
+verifications. -/
+theorem C13_any_pattern_completes (env : Env) (d0 : DestSt) (hd : Hdr) (rc : RemoteCfg) (cks : Nat) (cl : Bool)
+    (sname dname : String) (msgs : Option (List Msg)) (F crc : List UInt8) (seg : Nat)
+    (h1 h2 : List (Nat × Nat)) (times : List Nat) (tL tS : Nat)
+    (ha : Admissible env rc hd) (hchk : env.cfg.chkMs ≠ 0) (hs : 0 < seg)
+    (hidle : d0.state = .idle) (hq : d0.queue = []) (hr : d0.numReady = 0) (hrej : d0.rejects = [])
+    (hfl : d0.flts = []) (hnd : Fs.isDir d0.fs dname = false)
+    (hok : (∃ old, d0.fs.get dname = some (.file old)) ∨
+           (Fs.exists' d0.fs dname = false ∧ Fs.parentIsDir d0.fs dname = true))
+    (hfh1 : d0.faults.lookup ccChecksumFailure = some fhIgnore) (hfh2 : d0.faults.lookup ccCheckLimit = some fhCancel)
+    (hT1 : ∀ q ∈ h1, Tile seg F.length q.1 q.2) (hT2 : ∀ q ∈ h2, Tile seg F.length q.1 q.2)
+    (hall : ∀ x, x < F.length → covered (h1 ++ h2) x)
+    (hnull : cks ≠ 15) (hcrc : Checksum.calcChecksum (Checksum.CksType.ofNat cks) F F.length 4096 = .ok crc)
+    (hmis : MismatchOf cks (contentOf F h1 []) crc)
+    (hexp : C04.Expiring env.cfg.chkMs env.now times) (hlim : times.length < rc.chkLim)
+    (hrun : tL - C04.lastOr env.now times < env.cfg.chkMs) (hS : tS - C04.lastOr env.now times ≥ env.cfg.chkMs) :
+    ∃ d1 d2 d3 d4 d5 d6,
+      stateMachine env (some (.md hd cl cks F.length (some sname) (some dname) msgs)) d0 = .ok () d1 ∧
+      feedU env hd F h1 d1 = some d2 ∧
+      stateMachine env (some (.eof hd ccNoError crc F.length none)) d2 = .ok () d3 ∧
+      d3.state = .busy ∧ d3.queue = [] ∧ d3.inds.filter isFinished = d0.inds.filter isFinished ∧
+      checkRounds env.cfg times d3 = some d4 ∧
+      feedU ⟨env.cfg, tL⟩ hd F h2 d4 = some d5 ∧
+      stateMachine ⟨env.cfg, tS⟩ none d5 = .ok () d6 ∧
+      d6.state = .idle ∧
+      d6.queue = (if cl then [mkFin ⟨.toSend, hd.mode, hd.crc, hd.large, hd.src, hd.dst, hd.seq⟩
+        ⟨ccNoError, dcComplete, fsRetained, none⟩] else []) ∧
+      d6.fs.get dname = some (.file F) ∧ (∀ q, q ≠ dname → d6.fs.get q = d0.fs.get q) ∧
+      d6.inds.filter isFinished = d0.inds.filter isFinished ++
+        (if env.cfg.indFinished
+          then [.finished (some ⟨hd.src, hd.seq⟩) ⟨ccNoError, dcComplete, fsRetained, none⟩] else []) ∧
+      d6.flts = List.replicate (times.length + 1)
+        ⟨fhIgnore, ⟨hd.src, hd.seq⟩, ccChecksumFailure, (contentOf F h1 []).length⟩ := by
+  obtain ⟨hmd, hR0⟩ := C02_metadata env d0 hd rc cks F.length sname dname msgs cl ha hidle hq hr hrej hfl hnd hok
+  obtain ⟨d2, hf2, hR2, ho2, hin2, hcf2, hft2⟩ := C13_receiver_any_history env hd dname F seg rc ⟨hd.src, hd.seq⟩ cks cl hs ha
+    h1 _ [] [] hT1 (RecvU.ofReceiving hR0)
+  simp only [List.nil_append] at hR2
+  have hf1' : d2.faults.lookup ccChecksumFailure = some fhIgnore := by rw [hft2]; simpa [afterMd] using hfh1
+  have hf2' : d2.faults.lookup ccCheckLimit = some fhCancel := by rw [hft2]; simpa [afterMd] using hfh2
+  obtain ⟨heof, hW3⟩ := C13_eof_waits_any env d2 dname F _ crc h1 rc ⟨hd.src, hd.seq⟩ cks hd cl hR2 ha hmis hchk hf1' hf2'
+  obtain ⟨d4, hrounds, hW4, hfs4, hin4, hcf4, hfl4⟩ := C13_expiries_below_limit_any env.cfg dname F _ crc h1 rc
+    ⟨hd.src, hd.seq⟩ cks cl hmis times _ ⟨env.now, env.cfg.chkMs⟩ 0 hW3 hexp (by omega)
+  obtain ⟨d5, hf5, hW5, ho5, hin5, hcf5, hfl5⟩ := C13_late_any_history ⟨env.cfg, tL⟩ hd dname F crc seg rc ⟨hd.src, hd.seq⟩
+    cks cl _ _ hs ⟨ha.hdir, ha.hdst, ha.hsrc, ha.hmode⟩ (by simp [Timer.timedOut]; exact hrun) h2 d4 _ h1 hT2 hW4
+  obtain ⟨hcF, hCW⟩ := hW5.complete hall
+  have hsucc := C13_expiry_success_call ⟨env.cfg, tS⟩ d5 dname F crc rc ⟨hd.src, hd.seq⟩ cks _ _ cl hCW
+    (by simp [Timer.timedOut]; exact hS) hnull hcrc
+  have hconf5 : d5.p.conf = ⟨.toSend, hd.mode, hd.crc, hd.large, hd.src, hd.dst, hd.seq⟩ := by
+    rw [hcf5, hcf4]
+    show d2.p.conf = _
+    rw [hcf2]; simp [afterMd, mdParams]
+  refine ⟨_, d2, _, d4, d5, _, hmd, hf2, heof, hW3.hbusy, hW3.hqueue, ?_, hrounds, hf5, hsucc, rfl, ?_, ?_, ?_, ?_, ?_⟩
+  · simp only [afterEofWait, List.filter_append, hin2]
+    cases env.cfg.indEofRecv <;> simp [isFinished, afterMd]
+  · cases cl <;> simp [afterSuccess, hconf5]
+  · show d5.fs.get dname = some (.file F)
+    rw [hW5.hfile, hcF]
+  · intro q hq'
+    show d5.fs.get q = d0.fs.get q
+    rw [ho5 q hq', hfs4]
+    show d2.fs.get q = d0.fs.get q
+    rw [ho2 q hq']
+    simp [afterMd, Fs.C17.get_set_other _ _ _ _ hq']
+  · simp only [afterSuccess, List.filter_append, hin5, hin4]
+    simp only [afterEofWait, List.filter_append, hin2]
+    cases env.cfg.indEofRecv <;> cases env.cfg.indFinished <;> simp [isFinished, afterMd]
+  · show d5.flts = _
+    rw [hfl5, hfl4]
+    simp only [afterEofWait, hR2.hflts, List.nil_append]
+    rw [← hR2.hlen, List.replicate_succ]
+    simp
+
+end AnyPattern
+
 end WholeRuns
 
 /-! ### the hypotheses of the whole-run theorems are satisfiable (non-vacuity) -/
@@ -778,6 +1237,36 @@ example : True := by
     (Or.inl (by decide)) (by decide) (by decide) (by decide +kernel) mismatch
     (by simp [C04.Expiring, envD]) (by decide) (by decide) (by decide)
   trivial
+
+
+section AnyPatternEx
+open Cfdp.Dest Cfdp.C02 Cfdp.C06 Cfdp.C03
+
+theorem mismatchAny : MismatchOf 3 (contentOf F [(4, 5)] []) [71, 11, 153, 244] :=
+  ⟨by decide, [182, 72, 3, 146], by decide +kernel, by decide⟩
+
+/-- `C13_any_pattern_completes` applies: only the last tile arrives before the EOF; one expiry passes
+(1000); the other two tiles arrive at 1500, the middle one twice, the first one in between; the expiry at
+2000 completes the transfer -/
+example : True := by
+  have h := C13_any_pattern_completes envD d0 hU rcD 3 false "/a" "/b" none F [71, 11, 153, 244] 2
+    [(4, 5)] [(2, 4), (0, 2), (2, 4)] [1000] 1500 2000
+    ⟨rfl, rfl, by decide, rfl⟩ (by decide) (by decide) rfl rfl rfl rfl rfl (by decide)
+    (Or.inl ⟨[9], rfl⟩) (by decide) (by decide)
+    (by intro q hq; simp at hq; subst hq; exact ⟨⟨2, rfl⟩, by decide, rfl⟩)
+    (by intro q hq; simp at hq
+        rcases hq with rfl | rfl | rfl
+        · exact ⟨⟨1, rfl⟩, by decide, rfl⟩
+        · exact ⟨⟨0, rfl⟩, by decide, rfl⟩
+        · exact ⟨⟨1, rfl⟩, by decide, rfl⟩)
+    (by intro x hx
+        have : x = 0 ∨ x = 1 ∨ x = 2 ∨ x = 3 ∨ x = 4 := by simp [F] at hx; omega
+        rcases this with rfl | rfl | rfl | rfl | rfl <;> simp [covered])
+    (by decide) (by decide +kernel) mismatchAny
+    (by simp [C04.Expiring, envD]) (by decide) (by decide) (by decide)
+  trivial
+
+end AnyPatternEx
 
 end Ex
 
